@@ -356,7 +356,7 @@ fn gen_cmp(rng: &mut Rng) -> Cond {
     let f = rng.pick(&["num", "a", "b", "flag", "n.a"]).to_string();
     let g = rng.pick(&["num", "c", "b", "arr[0]"]).to_string();
     let op = *rng.pick(&CmpOp::ALL);
-    match rng.below(7) {
+    match rng.below(9) {
         0 => Cond::Cmp(Opnd::Cast(CastK::Int, f), op, Opnd::Int(*rng.pick(&[0, 1, 2, 5, 10, 7045, i64::MAX]))),
         1 => Cond::Cmp(Opnd::Int(*rng.pick(&[0, 1, 2, 5, 10])), op, Opnd::Cast(CastK::Int, f)),
         2 => Cond::Cmp(Opnd::Cast(CastK::Int, f), op, Opnd::Cast(CastK::Int, g)),
@@ -483,6 +483,8 @@ pub struct Leaf {
     pub field: String,
     pub modi: KMod,
     pub val: RVal,
+    /// set for the left field of a condition comparison between two casts: the other field
+    pub pair_with: Option<String>,
 }
 
 fn collect_entries(es: &Entries, containers: &[String], out: &mut Vec<Leaf>) {
@@ -500,11 +502,11 @@ fn collect_entries(es: &Entries, containers: &[String], out: &mut Vec<Leaf>) {
                         c.push(k.field.clone());
                         collect_entries(inner, &c, out);
                     } else {
-                        out.push(Leaf { containers: containers.to_vec(), field: k.field.clone(), modi: k.modi.clone(), val: m.clone() });
+                        out.push(Leaf { containers: containers.to_vec(), field: k.field.clone(), modi: k.modi.clone(), val: m.clone(), pair_with: None });
                     }
                 }
             }
-            _ => out.push(Leaf { containers: containers.to_vec(), field: k.field.clone(), modi: k.modi.clone(), val: v.clone() }),
+            _ => out.push(Leaf { containers: containers.to_vec(), field: k.field.clone(), modi: k.modi.clone(), val: v.clone(), pair_with: None }),
         }
     }
 }
@@ -524,7 +526,24 @@ pub fn collect_leaves(rule: &RuleAst) -> Vec<Leaf> {
     let mut cf = vec![];
     rule.cond.cast_fields(&mut cf);
     for f in cf {
-        out.push(Leaf { containers: vec![], field: f, modi: KMod::Int, val: RVal::Int(1) });
+        out.push(Leaf { containers: vec![], field: f, modi: KMod::Int, val: RVal::Int(1), pair_with: None });
+    }
+    // comparisons between two casts: the two fields get related values
+    fn pairs(c: &Cond, out: &mut Vec<(String, String)>) {
+        match c {
+            Cond::And(a, b) | Cond::Or(a, b) => {
+                pairs(a, out);
+                pairs(b, out);
+            }
+            Cond::Not(a) | Cond::Paren(a) => pairs(a, out),
+            Cond::Cmp(Opnd::Cast(_, f), _, Opnd::Cast(_, g)) => out.push((f.clone(), g.clone())),
+            _ => {}
+        }
+    }
+    let mut ps = vec![];
+    pairs(&rule.cond, &mut ps);
+    for (f, g) in ps {
+        out.push(Leaf { containers: vec![], field: f, modi: KMod::Str, val: RVal::Null, pair_with: Some(g) });
     }
     out
 }
@@ -867,8 +886,38 @@ pub fn gen_doc(rng: &mut Rng, leaves: &[Leaf]) -> DVal {
     let mut order: Vec<usize> = (0..leaves.len()).collect();
     rng.shuffle(&mut order);
     let absent_pct = *rng.pick(&[5u32, 15, 25, 45]);
+    // fields compared with each other: equal, equal up to case, equal as text but of different
+    // kinds, numerically equal but written differently, or unrelated
+    for leaf in leaves.iter().filter(|l| l.pair_with.is_some()) {
+        if !rng.chance(60) {
+            continue;
+        }
+        let g = leaf.pair_with.clone().unwrap();
+        let w = loop {
+            let w = word(rng);
+            if !w.is_empty() {
+                break w;
+            }
+        };
+        let (a, b) = match rng.below(9) {
+            0 => (DVal::Str(w.clone()), DVal::Str(w.clone())),
+            1 | 2 => (DVal::Str(w.clone()), DVal::Str(flip_case(&w, rng))),
+            3 => (DVal::UInt(5), DVal::s("5")),
+            4 => (DVal::Float(5.0), DVal::UInt(5)),
+            5 => (DVal::Float(0.0), DVal::Float(-0.0)),
+            6 => (DVal::Bool(true), DVal::s("true")),
+            7 => (DVal::s("5"), DVal::s("5.0")),
+            _ => (DVal::Str(w.clone()), DVal::Str(format!("{}x", w))),
+        };
+        let (a, b) = if rng.chance(50) { (a, b) } else { (b, a) };
+        place(&mut doc, &leaf.field, a, rng);
+        place(&mut doc, &g, b, rng);
+    }
     for i in order {
         let leaf = &leaves[i];
+        if leaf.pair_with.is_some() {
+            continue;
+        }
         if rng.chance(absent_pct) {
             continue;
         }
